@@ -153,14 +153,14 @@ def run(ctx):
         tr = os.path.join(ctx.scratch, "locks-trace.ndjson")
         t = time.time()
         s, mm = hrun(ctx, plain, ["stress", tr, "-seed", ctx.seed, "-secs", 5 if quick else 30, "-epoch", 1200,
-                                  "-maxev", 10000 if quick else 60000], timeout=600, what="stress-log")
+                                  "-maxev", 10000 if quick else 40000], timeout=600, what="stress-log")
         res["stress"] = (s, mm)
         # when the free run deadlocks early, add epochs that avoid opposite-direction copies so that the
         # recorded trace is long enough to validate the mining
-        if s.get("stalls", 0) > 0 and s.get("records", 0) < (7000 if quick else 40000):
+        if s.get("stalls", 0) > 0 and s.get("records", 0) < (7000 if quick else 28000):
             tr2 = tr + ".ordered"
             s2, mm2 = hrun(ctx, plain, ["stress", tr2, "-seed", ctx.seed + 7, "-secs", 4 if quick else 25, "-epoch", 1200,
-                                        "-maxev", (10000 if quick else 60000) - s.get("records", 0), "-ordered"],
+                                        "-maxev", (10000 if quick else 40000) - s.get("records", 0), "-ordered"],
                            timeout=600, what="stress-log-ordered")
             res["stress2"] = (s2, mm2)
             with open(tr, "a") as fh:
